@@ -358,13 +358,14 @@ def _run_require(lay, case, S):
     main_lua = lay.p('work/proj/main.lua')
     out = lay.p('build/out.p8')
     form = case.get('form', 'paren')
+    lit = S.encode('utf-8').replace(b'\\', b'\\\\')       # the Lua literal denoting S
     if form == 'paren':
-        line = b'local r=require("' + S.encode('utf-8') + b'")\n'
+        line = b'local r=require("' + lit + b'")\n'
     elif form == 'string':
         # Lua's call-with-a-string-literal syntax; whatever picotool does with it, it must not open outside files
-        line = b'local r=require "' + S.encode('utf-8') + b'"\n'
+        line = b'local r=require "' + lit + b'"\n'
     else:
-        line = b"print(require '" + S.encode('utf-8') + b"')\n"
+        line = b"print(require '" + lit + b"')\n"
     exact = {main_lua, out}
     if case['nested']:
         hp = lay.p(hopfile)
@@ -417,6 +418,12 @@ def classify(case):
         labs.append('absolute')
     if any(s in SIBLINGS for s in segs) or (case['setting'] == 'homex' and 'carts' in segs):
         labs.append('sibling')
+    if '~' in S:
+        labs.append('tilde')
+    if '\\' in S:
+        labs.append('backslash')
+    if '$' in S or '%' in S:
+        labs.append('env_var')
     return labs
 
 
@@ -487,6 +494,39 @@ def explicit_strings(lay, bases, exts):
     return res
 
 
+def special_strings(lay, bases):
+    """Strings that mean something to a shell, to Windows or to os.path helpers - `~` (home directory; $HOME holds
+    canaries), backslash separators, environment variables, glob characters - built around the layout's files.  None
+    of them names a file inside a root, so whatever picotool makes of them it must not open a file outside."""
+    out = ['~', '~/', '~/canary', '~/canary.lua', '~/ok', '~/init', '~root/canary', '~/../canary', '~/.lexaloffle/pico-8/canary',
+           '~/.lexaloffle/pico-8/ok', '~/.lexaloffle/pico-8/cartsXy/canary', 'lib/~/canary', '~/../home/canary',
+           '$HOME/canary', '${HOME}/canary', '$HOME/.lexaloffle/pico-8/canary', '%HOME%/canary', '$TMPDIR/canary',
+           '../*/canary', '*', '../proj?/canary', '../proj[x]/canary', '..\\canary', '..\\projx\\canary', '..\\projx\\ok',
+           'lib\\..\\..\\projx/canary', '..\\..\\canary', 'sub\\..\\..\\canary', '\\canary', 'lib\\ok', '..\\proj-old\\canary',
+           '..\\cartsXy\\canary', '..\\..\\cartsXy\\canary', '..\\canary', 'game\\..\\..\\canary', '..\\..\\..\\canary',
+           'file://{TMP}/canary', '{TMP}\\canary', 'C:{TMP}/canary']
+    home = lay.p('home')
+    for path in sorted(lay.content):
+        stems = {path} | {path[:-len(e)] for e in EXTS if path.endswith(e)}
+        for stem in sorted(stems):
+            if contains(home, stem):
+                out.append('~/' + os.path.relpath(stem, home))
+                out.append('$HOME/' + os.path.relpath(stem, home))
+            for b in bases:
+                rel = os.path.relpath(stem, b)
+                if rel.startswith('..'):
+                    out.append(rel.replace('/', '\\'))
+                    out.append(rel.replace('../', '..\\', 1))
+    seen = set()
+    res = []
+    for x in out:
+        t = lay.tpl(x)
+        if t not in seen:
+            seen.add(t)
+            res.append(t)
+    return res
+
+
 def include_cases(lay, maxseg):
     for setting in INC_SETTINGS:
         base = lay.p(INC_BASE[setting])
@@ -501,6 +541,9 @@ def include_cases(lay, maxseg):
         if setting == 'own':
             for S in enum_strings(2, SIB[setting]):
                 yield {'mode': 'include', 'setting': setting, 'S': S, 'ext': '.lua', 'bare': True}
+        for S in special_strings(lay, [base, lay.p(INC_ROOT[setting])]):
+            for ext in EXTS[:2] if S.count('\\') < 2 else EXTS[:1]:
+                yield {'mode': 'include', 'setting': setting, 'S': S, 'ext': ext}
 
 
 def require_cases(lay, maxseg):
@@ -518,6 +561,8 @@ def require_cases(lay, maxseg):
                     yield dict(probe, S='nolib;' + S)
                     yield dict(probe, S='ok;' + S)
             for S in ('x;..', 'ok;..', ';', 'a;b', ';/', 'ok;lib', 'nolib;lib/ok', ';ok', 'ok;'):
+                yield dict(probe, S=S)
+            for S in special_strings(lay, roots):
                 yield dict(probe, S=S)
             for form in ('string', 'string_sq'):
                 for S in explicit_strings(lay, roots, ['.lua', '/init.lua']):
@@ -602,7 +647,7 @@ def replay(case):
 
 def vacuity(total, tier):
     msgs = []
-    need = ['dotdot', 'absolute', 'sibling', 'inside_ok', 'rejected', 'nested', 'mode_include', 'mode_require',
+    need = ['dotdot', 'absolute', 'sibling', 'tilde', 'backslash', 'env_var', 'inside_ok', 'rejected', 'nested', 'mode_include', 'mode_require',
             'bare_relative_cart_name', 'require_string_call_form',
             'target_outside', 'failed_other']
     need += ['setting_' + s for s in INC_SETTINGS + REQ_ORDER]
